@@ -7,6 +7,7 @@ import (
 
 	h2internal "github.com/imroc/req/v3/internal/http2"
 	"github.com/imroc/req/v3/internal/http3"
+	"github.com/imroc/req/v3/pkg/altsvc"
 )
 
 // VerifPoolSnap is a lock-consistent copy of the HTTP/1.1 pool bookkeeping of a Transport
@@ -92,3 +93,6 @@ func VerifH3Snapshot(t *Transport) []http3.VerifH3Client {
 	}
 	return http3.VerifH3Clients(t.t3)
 }
+
+// VerifAltSvcJar returns the Alt-Svc cache of t (nil when HTTP/3 support is disabled).
+func VerifAltSvcJar(t *Transport) altsvc.Jar { return t.altSvcJar }
